@@ -281,6 +281,12 @@ def run_case(case, ctx):
             newcol = newcol[1:] + newcol[:1] if len(set(map(repr, newcol))) > 1 else [codec.dec(v, sess) for v in case['phase2']][:len(newcol)] + newcol[len(case['phase2']):]
             if case.get('phase2_via') == 'attr':
                 setattr(x, c0, newcol)
+            elif case.get('phase2_via') == 'update':
+                x.update({c0: newcol})
+            elif case.get('phase2_via') == 'ior':
+                x |= {c0: newcol}
+            elif case.get('phase2_via') == 'update_table':
+                x.update(dictable({c0: newcol}))            # the new column handed over as a table of the same length
             else:
                 x[c0] = newcol
             xr2 = rows_of(x)
@@ -463,7 +469,7 @@ def gen_case(rng, maxrows):
         return case
     if rng.random() < 0.3 and nk:
         case['phase2'] = [keycell(rng, kinds[0]) for _ in range(nl)]
-        case['phase2_via'] = rng.choice(['item', 'attr'])
+        case['phase2_via'] = rng.choice(['item', 'attr', 'update', 'ior', 'update_table'])
     if op == 'xor' and rng.random() < 0.3:
         case['xmode'] = rng.choice(['l', 'r', 'right', 1, 'left', 0])
         case.pop('phase2', None)
